@@ -20,6 +20,8 @@ func init() {
 		add(&quick, 0, 0, 0, 1, 0, 0)
 		add(&quick, 0, 1, 3, 1, 0, 0)
 		add(&quick, 2, 2, 3, 1, 1, 0)
+		add(&quick, 0, 1, 4, 1, 0, 0) // shutdown order: the parent context ends, then Close
+		add(&quick, 2, 2, 4, 1, 0, 0)
 		add(&thorough, 0, 3, 0, 1, 0, 0)
 		add(&thorough, 2, 3, 0, 1, 0, 0)
 		add(&thorough, 0, 2, 1, 2, 0, 0)
@@ -42,7 +44,7 @@ func init() {
 				"quick":    "up to 2 concurrent user Close calls plus a Close from a read / active handler, read failures of all four kinds after 0-2 bytes, synchronous and queue-2 channels; a failing Writev / Flush in the background sender racing with 0-1 user Close",
 				"thorough": "3 concurrent Close calls; combinations of handler close with failing reads",
 			},
-			Outside:     "holder-driven shutdown (C13); a swallowed timeout read error with no Close at all (the read loop then retries forever by design)",
+			Outside:     "the holder itself (C13; its order - parent context first, then Close - is a closer kind here); a swallowed timeout read error with no Close at all (the read loop then retries forever by design)",
 			Assumptions: Specs["C01"].Assumptions,
 		}
 	}
